@@ -19,6 +19,9 @@ class SessionProp(Prop):
     thorough_n = 40000
     gen_role = None
 
+    def corpus(self):
+        return sessions.boundary_histories(self.gen_role)
+
     def generate(self, rng, n, tier):
         out = []
         for _ in range(n):
